@@ -9,12 +9,15 @@ ASSUMPTIONS = ["operations are complete compile-and-match operations performed o
 HERE = os.path.dirname(os.path.abspath(__file__))
 
 
-def fresh(ops):
-    """each op alone in a fresh interpreter"""
+def fresh(ops, hashseed=None):
+    """each op alone in a fresh interpreter (optionally with a fixed string-hash seed)"""
     out = []
+    env = dict(os.environ)
+    if hashseed is not None:
+        env["PYTHONHASHSEED"] = str(hashseed)
     for op in ops:
         p = subprocess.run(["/venv/bin/python", os.path.join(HERE, "..", "oneop.py")], input=json.dumps({"ops": [op]}),
-                           capture_output=True, text=True, timeout=120)
+                           capture_output=True, text=True, timeout=120, env=env)
         if p.returncode != 0:
             raise RuntimeError("fresh interpreter failed: " + p.stderr[-500:])
         r = json.loads(p.stdout.strip().split("\n")[-1])[0]
@@ -74,6 +77,10 @@ def pool(ctx):
     op({"pattern": [{"$or": []}]})
     # a `config:` key that is present but null / empty (every entry commented out): whatever the code makes of it, it makes
     # the same of it after any history
+    # groups whose alternatives can match at one place with different lengths: which one wins must not depend on anything
+    # but the rule (the interpreter's string-hash seed is not an input)
+    op({"pattern": [{"$and_any_order": ["push", {"mov": {"times": {"min": 0, "max": 1}}}]}]})
+    op({"pattern": [{"$and_any_order": [{"$or": ["mov", "call"], "times": {"min": 1, "max": 2}}, "mov", "push"]}]})
     op({"config": None, "pattern": [{"$or": ["mov", {"call": ["401020"]}]}]})
     op({"config": {}, "pattern": [{"$or": ["mov", {"call": ["401020"]}]}]})
     op({"config": None, "pattern": [{"call": ["valid_addr"]}]}, addr_only=True)
@@ -95,7 +102,7 @@ def model_run(ctx, op, obj_texts):
 
 def run(ctx, factor):
     g, rep = ctx.g, ctx.report
-    rep.rule = ("a pool of 29 complete operations on two different listings and one object file (differing in full-match flags, sections, address ranges, instruction/"
+    rep.rule = ("a pool of 31 complete operations on two different listings and one object file (differing in full-match flags, sections, address ranges, instruction/"
                 "operand captures, in-file and extra-file macros, assembly/binary input, modes; five of them failing, some "
                 "after having written part of the config) ; random sequences of 2-6 (thorough: up to 10) operations run in "
                 "ONE interpreter, every result compared with the same operation run alone in a FRESH interpreter, and with "
@@ -103,6 +110,15 @@ def run(ctx, factor):
                 "different configs")
     ops = pool(ctx)
     ref = [norm(r) for r in fresh(ops)]
+    # fresh interpreters differ in one thing the user does not control: the seed of Python's string hashing
+    anyorder = [i for i, o in enumerate(ops) if "$and_any_order" in json.dumps(o["doc"])]
+    for seed in (ctx.g.int(1, 50), ctx.g.int(51, 100)) + ((ctx.g.int(101, 1000),) if ctx.tier == "thorough" else ()):
+        other = [norm(r) for r in fresh([ops[i] for i in anyorder], hashseed=seed)]
+        for i, r in zip(anyorder, other):
+            rep.case({"operation": ops[i], "PYTHONHASHSEED": seed}, True, tags=["hash-seed"])
+            if r != ref[i]:
+                rep.violate("result-depends-on-the-hash-seed", {"operation": ops[i], "PYTHONHASHSEED": seed},
+                            {"result_in_another_fresh_process": ref[i]}, {"result": r}, model_agrees_with_spec=None)
     obj = next(o["binary_path"] for o in ops if o.get("binary_path"))
     obj_texts = {}
     for secs in {tuple((o["doc"].get("config") or {}).get("sections", []) or []) for o in ops if o.get("binary_path")}:
